@@ -213,7 +213,7 @@ Lemma simple_cs_snoc cs g kd ns :
   simple_cs (cs ++ [mkRck g kd ns]) = true.
 Proof.
   induction cs as [|ck cs IH]; cbn [app simple_cs existsb]; intros Hs He Hn.
-  - rewrite Hn. reflexivity.
+  - cbn [ck_names]. rewrite Hn. reflexivity.
   - apply Bool.andb_true_iff in Hs. destruct Hs as [Hs H3].
     apply Bool.andb_true_iff in Hs. destruct Hs as [H1 H2].
     apply Bool.orb_false_iff in He. destruct He as [He1 He2].
@@ -360,8 +360,12 @@ Qed.
 (* update_nth                                                          *)
 (* ------------------------------------------------------------------ *)
 
-Fixpoint upd_go {A} (n : nat) (f : A -> A) (i : nat) (l : list A) : list A :=
-  match l with [] => [] | a :: l' => (if Nat.eqb i n then f a else a) :: upd_go n f (S i) l' end.
+Section UpdGo.
+  Context {A : Type}.
+  Variables (n : nat) (f : A -> A).
+  Fixpoint upd_go (i : nat) (l : list A) : list A :=
+    match l with [] => [] | a :: l' => (if Nat.eqb i n then f a else a) :: upd_go (S i) l' end.
+End UpdGo.
 
 Lemma update_nth_eq {A} n (f : A -> A) l : update_nth n f l = upd_go n f 0 l.
 Proof. reflexivity. Qed.
